@@ -261,6 +261,18 @@ fire('C13', 'argument-aliases-element', ('src/Points.cpp', """        if (idx >=
             _points.resize(idx+1);
         _points[idx] = point;"""))
 
+# ---- survivors of the mutation sweep (pass the project's suite; structural gaps closed afterwards)
+for pid in ('C01', 'C03'):
+    fire(pid, 'default-scale-positive', ('src/Header.cpp', '    _scaleFactor(-1),', '    _scaleFactor(+1),'))
+for pid in ('C03', 'C04'):
+    fire(pid, 'padding-loop-le', ('src/Parameter.cpp', 'for (size_t j=_param_data_string[0].size(); j<_dimension[0]; ++j)', 'for (size_t j=_param_data_string[0].size(); j<=_dimension[0]; ++j)'))
+for pid in ('C02', 'C04'):
+    fire(pid, 'dispatch-id-le-0', ('src/Parameters.cpp', 'if (id < 0)', 'if (id <= 0)'))
+for pid in ('C02', 'C12'):
+    fire(pid, 'float-marker-le', ('src/Data.cpp', 'if (file.header().scaleFactor() < 0){', 'if (file.header().scaleFactor() <= 0){'))
+for pid in ('C13', 'C16'):
+    fire(pid, 'vacuous-size-guard', (W, "if (s.size() > 0 && s[s.size()-1] == ' ')", "if (s.size() >= 0 && s[s.size()-1] == ' ')"))
+
 def main():
     made = 0
     skipped = []
